@@ -14,7 +14,8 @@ METHODS = ('GET', 'HEAD', 'POST', 'PUT', 'DELETE', 'PATCH', 'OPTIONS')
 CREDS = {'none': None, 'wrong-user': 'root:admin', 'wrong-password': 'admin:nimda', 'empty-password': 'admin:',
          'unknown-user-empty-password': 'nobody:', 'empty-user-empty-password': ':', 'empty-user-right-password': ':admin',
          'case-changed-user': 'Admin:admin', 'case-changed-password': 'admin:Admin', 'password-prefix': 'admin:admi',
-         'password-with-suffix': 'admin:admin ',
+         'password-with-suffix': 'admin:admin ', 'password-plus-nul': 'admin:admin\x00', 'password-plus-nuls': 'admin:admin\x00\x00\x00\x00',
+         'password-prefix-plus-nul': 'admin:admi\x00',
          # characters outside ASCII around / inside the right password (what a lossy normalisation would strip)
          'password-plus-non-ascii': 'admin:admin\u00e9', 'non-ascii-plus-password': 'admin:\u20acadmin', 'password-interleaved-non-ascii': 'admin:ad\u00fcmin',
          'right': 'admin:admin'}
